@@ -126,6 +126,7 @@ struct SampleRun {
         begin((uint64_t) op.arg(0), op.s);
         GTv out; Frv y; memset(y.b, 0, 32); const char* nm = which ? "random_gt" : "gt_multiply_random";
         if (which) { R.jv_const_get(JV_EK_GT, 1, b.b); R.jv_wk_random_gt(view, out.b, jv_rand_cb); }
+        else if (op.arg(3) & 1) { memcpy(out.b, b.b, sizeof(out.b)); R.jv_gt_multiply_random(view, out.b, y.b, out.b, jv_rand_cb); env.count("probe:in_place_call_output_is_the_input_object"); }   // the caller's accumulator idiom: result object = base object
         else R.jv_gt_multiply_random(view, out.b, y.b, b.b, jv_rand_cb);
         SampleCursor c(env.stream.reqs); Bn v; uint64_t d[4]; model_powers_random(c, v, d); finish(c, nm, "C07");
         if (!which) { env.check(Bn::from_le(y.b, 32) == v, "C07", "random-exponent:value", strf("gt_multiply_random returned exponent %s, the stream determines %s", Bn::from_le(y.b, 32).hexstr().c_str(), v.hexstr().c_str())); env.check(Bn::from_le(y.b, 32) < K().r, "C07", "random-exponent:below-r", "random exponent >= r"); }
@@ -142,15 +143,18 @@ struct SampleRun {
     void op_gtpow(const Op& op) {
         GTv a = base(op.arg(0)); Bn k = value_of_code(op.s.empty() ? "1" : op.s[0]);
         uint8_t k32[32]; k.to_le(k32, 32); GTv out; env.lib_calls++;
-        R.jv_gt_multiply(view, out.b, a.b, k32);
+        bool inplace = (op.arg(1) & 1) != 0;
+        if (inplace) { memcpy(out.b, a.b, sizeof(out.b)); R.jv_gt_multiply(view, out.b, out.b, k32); env.count("probe:in_place_call_output_is_the_input_object"); }
+        else R.jv_gt_multiply(view, out.b, a.b, k32);
         env.check(w.ct(out) == w.ct(w.gtpow(a, k)), "C07", "exponentiation:value", "gt_multiply(a, " + k.hexstr() + ") != a^k by generic square-and-multiply");
         uint64_t d[4]; R.jv_decompose_x(d, k32);
         Bn rec = Bn(d[0]); rec = Bn::add(rec, Bn::mul(Bn(d[1]), K().absx)); rec = Bn::add(rec, Bn::mul(Bn(d[2]), K().x2)); rec = Bn::add(rec, Bn::mul(Bn(d[3]), K().x3));
         env.check(Bn::mod(rec, K().r) == Bn::mod(k, K().r), "C07", "decomposition:recombines", "base-|x| digits of " + k.hexstr() + " do not recombine to it modulo r");
         if (k < K().r) for (int i = 0; i < 4; i++) env.check(Bn(d[i]) < K().absx, "C07", "decomposition:digit-range", "a digit of the decomposition of a reduced exponent is >= |x|");
         GTv dbl, neg, prod, one = w.gtone(); env.lib_calls += 3;
-        R.jv_gt_double(view, dbl.b, a.b); env.check(w.ct(dbl) == w.ct(w.gtmul(a, a)), "C07", "squaring:value", "gt_double(a) != a*a");
-        R.jv_gt_negate(view, neg.b, a.b); R.jv_gt_add(view, prod.b, neg.b, a.b); env.check(w.ct(prod) == w.ct(one), "C07", "inversion:value", "gt_negate(a)*a != 1");
+        if (inplace) { memcpy(dbl.b, a.b, sizeof(dbl.b)); R.jv_gt_double(view, dbl.b, dbl.b); } else { R.jv_gt_double(view, dbl.b, a.b); }
+        env.check(w.ct(dbl) == w.ct(w.gtmul(a, a)), "C07", "squaring:value", "gt_double(a) != a*a");
+        if (inplace) { memcpy(neg.b, a.b, sizeof(neg.b)); R.jv_gt_negate(view, neg.b, neg.b); memcpy(prod.b, neg.b, sizeof(prod.b)); R.jv_gt_add(view, prod.b, prod.b, a.b); } else { R.jv_gt_negate(view, neg.b, a.b); R.jv_gt_add(view, prod.b, neg.b, a.b); } env.check(w.ct(prod) == w.ct(one), "C07", "inversion:value", "gt_negate(a)*a != 1");
         env.logf("GTPOW k=%s out=%s", k.hexstr().c_str(), sha_hex(out.b, 576, 8).c_str());
         gts.push_back(out); if (gts.size() > 6) gts.erase(gts.begin() + 1);
         env.add_case("gtpow " + (op.s.empty() ? std::string("1") : op.s[0].substr(0, 6)), k >= K().r);
@@ -235,8 +239,8 @@ struct SampleScenario : Scenario {
             if (focus == 10) k = r.chance(3, 4) ? (r.chance(1, 2) ? r.range(0, 3) : r.range(7, 9)) : k;
             if (k <= 1) { int which = r.range(0, 3); p.ops.push_back({"ZP", {ss, which}, which == 2 ? faults(f8, 13) : which == 3 ? faults(f48, 7) : faults(f32, 11)}); }
             else if (k <= 3) p.ops.push_back({"GEN", {ss, r.range(0, 1), r.range(0, 1)}, faults(f48, 12)});
-            else if (k <= 5) p.ops.push_back({"GTR", {ss, (int64_t) r.below(8), r.chance(1, 4)}, faults(f8, 13)});
-            else if (k == 6) p.ops.push_back({"GTPOW", {(int64_t) r.below(8)}, {r.chance(1, 3) ? "x" + rhex(r, 32) : std::string(kcodes[r.below(10)])}});
+            else if (k <= 5) p.ops.push_back({"GTR", {ss, (int64_t) r.below(8), r.chance(1, 4), r.chance(1, 3)}, faults(f8, 13)});
+            else if (k == 6) p.ops.push_back({"GTPOW", {(int64_t) r.below(8), r.chance(1, 3)}, {r.chance(1, 3) ? "x" + rhex(r, 32) : std::string(kcodes[r.below(10)])}});
             else if (k == 7) {
                 std::string h = rhex(r, 32); int m = r.range(0, 7);
                 Bn v; if (m == 0) v = K().r; else if (m == 1) v = Bn::sub(K().r, Bn(1)); else if (m == 2) v = Bn::add(K().r, Bn(1)); else if (m == 3) v = Bn::add(K().r, Bn(1).shl(255)); else if (m == 4) v = Bn::sub(Bn(1).shl(256), Bn(1)); else if (m == 5) v = Bn::sub(Bn(1).shl(255), Bn(1));
